@@ -35,6 +35,116 @@ def write_ir2_file(ins, path):
         fh.write("\n".join(extra) + ("\n" if extra else ""))
 
 
+def write_ir2_file_pruned(ins, path, bad):
+    """the same file with the instances in `bad` replaced by an unusable primitive"""
+    write_ir2_file(ins, path)
+    lines = Path(path).read_text().split("\n")
+    out, skip = [], 0
+    for l in lines:
+        f = l.split(" ")
+        if skip:
+            skip -= 1
+            continue
+        if f[0] in ("struct", "union", "array", "dict", "prim") and int(f[1]) in bad:
+            out.append(f"prim {f[1]} notl1")
+            skip = int(f[3]) if f[0] == "struct" else (1 if f[0] in ("array", "dict") else 0)
+            continue
+        if f[0] in ("alias", "bit", "uidx") and int(f[1]) in bad:
+            continue
+        out.append(l)
+    Path(path).write_text("\n".join(out))
+
+
+def reaches(ins, bad):
+    """instances from which an instance of `bad` is reachable (fields, variants, elements)"""
+    succ = {}
+    for x in ins:
+        e = [f["type"] for f in x.get("fields") or []]
+        e += x.get("variants") or []
+        if x.get("elem"):
+            e.append(x["elem"]["type"])
+        succ[x["id"]] = e
+    res = set(bad)
+    changed = True
+    while changed:
+        changed = False
+        for i, e in succ.items():
+            if i not in res and any(j in res for j in e):
+                res.add(i)
+                changed = True
+    return res
+
+
+class ModelView:
+    """Which top-level types of a unit the model covers, and the IR file the model reads.
+    Instances without a finite default object (a union whose first variant contains the union
+    again: the generated writer does not terminate on them) are cut out of the model's schema;
+    types that can contain such an instance are left to the model-free oracle."""
+
+    def __init__(self, u, ref):
+        self.path = u.ir_path
+        self.whole_unit_out = None
+        self.no_default = set()
+        self.out = set()
+        notes = ir_notes(u.ins)
+        rc, o, err = run_lines(ref, [str(u.ir_path)], ["wfwhy"])
+        if notes:
+            self.whole_unit_out = "; ".join(notes[:5])
+            return
+        if rc != 0 or len(o) != 1 or not o[0].startswith("ok "):
+            self.whole_unit_out = f"model driver failed on the dump: {err[-200:]}"
+            return
+        items = [] if o[0] == "ok -" else o[0][3:].split(",")
+        other = [i for i in items if not i.endswith(":no-finite-default")]
+        if other:
+            self.whole_unit_out = "wf2 is false for the dump: " + ",".join(other[:8])
+            return
+        self.no_default = {int(i.split(":")[0]) for i in items}
+        if self.no_default:
+            self.out = reaches(u.ins, self.no_default)
+            self.path = Path(str(u.ir_path) + ".pruned")
+            write_ir2_file_pruned(u.ins, self.path, self.no_default)
+            rc, o, err = run_lines(ref, [str(self.path)], ["wf"])
+            if o != ["ok true"]:
+                self.whole_unit_out = "wf2 is false for the pruned dump"
+
+    def covers(self, tid):
+        return self.whole_unit_out is None and int(tid) not in self.out
+
+    def describe(self, u, tops):
+        if self.whole_unit_out:
+            return {"unit": u.name, "why": self.whole_unit_out, "types": [name for tid, name, x in tops][:40]}
+        if self.out:
+            return {"unit": u.name, "why": "no finite default object (first union variant contains the union): " +
+                    ", ".join(u.ins[i]["name"] for i in sorted(self.no_default)[:8]),
+                    "types": [name for tid, name, x in tops if tid in self.out][:40]}
+        return None
+
+
+def model_run(ref, mv, lines, tid_pos):
+    """run the model on the lines whose type it covers; result list has None elsewhere"""
+    idx = [i for i, l in enumerate(lines) if mv.covers(l.split(" ")[tid_pos])]
+    res = [None] * len(lines)
+    if not idx:
+        return res, None
+    rc, out, err = run_lines(ref, [str(mv.path)], [lines[i] for i in idx])
+    if rc != 0 or len(out) != len(idx):
+        return None, f"model driver failed: rc={rc} {err[-300:]}"
+    for i, o in zip(idx, out):
+        res[i] = o
+    return res, None
+
+
+NONTERM = "write-of-default-object-does-not-terminate"
+
+
+def crash_sig(pid, mv, u, tid, name, g):
+    """stable signature of a Go crash/panic"""
+    if ("stack" in g) and int(tid) in mv.out:
+        return f"{pid}:{NONTERM}:{name}"
+    return f"{pid}:panic:{u.name}:{name}"
+
+
 def ir_notes(ins):
     """Facts about the dump the model relies on (reported in the evidence when violated)."""
     notes = []
@@ -85,6 +195,17 @@ def unit_tops(u):
     # ReadTL2/WriteTL2 do nothing: not a TL2 object
     return [t for t in toplevel_objects(u.ins) if t[1] in have and have[t[1]][4] == "true"
             and not (t[2]["kind"] == "struct" and t[2].get("isUnionElement") and not t[2]["fields"])]
+
+
+def size_prefixed(ins, tid):
+    """does the TL2 encoding of the type start with a byte size (object / array / string)?
+    Aliases are transparent; fixed-width primitives have no size."""
+    x = ins[tid]
+    seen = 0
+    while x["kind"] == "struct" and x.get("isAlias") and seen < 32:
+        x = ins[x["fields"][0]["type"]]
+        seen += 1
+    return not (x["kind"] == "prim" and x["name"] != "string")
 
 
 def size2(n):
